@@ -68,7 +68,9 @@ class DecodeModel:
         return out
 
     def key_components(self, key):
-        """Endpoint initialiser components of a key expression, or None."""
+        """Endpoint initialiser components of a key expression (also through a local that
+        holds the key), or None."""
+        key = facts.expand(self.decode, key)
         for d in walk(key):
             if d.get("k") == "initlist" and d.get("rec") == EP:
                 return d["inits"]
